@@ -51,9 +51,11 @@ def behaviours_from_simulation(ctx, cfg, n, depth, tag):
     out = []
     for f in sorted(glob.glob(simdir + '/tr_*')):
         b = tlaparse.parse_simulation_file(f)
-        calls, outcome = [], []
+        calls, outcome, proto = [], [], []
         for label, st in b:
             ev = st['ev']
+            if ev['type'] in ('Lookup', 'PubNames', 'PubCache'):
+                proto.append([ev['type'], ev['op'], [list(k) for k in ev['pat']], bool(ev['hit']) if ev['type'] == 'Lookup' else False])
             if ev['type'] == 'Begin':
                 mode = st['stack'][ev['t']][0]['mode']
                 calls.append((ev['op'], [list(k) for k in ev['pat']], mode))
@@ -63,7 +65,7 @@ def behaviours_from_simulation(ctx, cfg, n, depth, tag):
             elif ev['type'] == 'PubCache' and outcome:
                 outcome[-1]['generated'] += 1
         if calls:
-            out.append((calls, outcome))
+            out.append((calls, outcome, proto))
     return out
 
 
@@ -213,8 +215,10 @@ def run(ctx):
                          'history': history, 'expect': expect}
     # (1) spec -> code: behaviours of the model
     behs = behaviours_from_simulation(ctx, 'mc/MC_Kingdon_sim.cfg', 40 if q else 400, 70 if q else 110, 'seq')
-    for bi, (calls, outcome) in enumerate(behs):
+    model_proto = {}
+    for bi, (calls, outcome, proto) in enumerate(behs):
         for wrap in (False, True):
+            model_proto[f'm{bi}{"w" if wrap else "n"}'] = (calls, proto)
             hist = [model_call_to_real(op, pat, mode) for op, pat, mode in calls]
             add(f'm{bi}{"w" if wrap else "n"}', ucfg(sig=[0, 1]), {'wrapper': wrap}, {k: v for k, v in MODEL_PROGRAMS.items() if k != 'f2'}, hist, outcome)
     # (2) beyond the alphabet: random histories, d = 2, 3, wrapper on/off, cse on/off
@@ -250,6 +254,31 @@ def run(ctx):
             ci = int(ev['id'].split(':')[-1])
             if ci < len(exp) and bool(ev['raised']) != exp[ci]['raised']:
                 mism += 1
+    # protocol agreement (drift metric): for replayed behaviours without composite / failing operators (whose sub-generations
+    # depend on the metric), the observed Lookup / PubNames / PubCache sequence must be the one the model took
+    agree = disagree = 0
+    for r in res:
+        sid = os.path.basename(r['proto']).split('.')[0]
+        if sid not in model_proto:
+            continue
+        calls, proto = model_proto[sid]
+        if any(c[0] in ('sw', 'div', 'symf') for c in calls):
+            continue
+        obs = []
+        for line in list(open(r['proto']))[1:]:
+            e = json.loads(line)
+            if e['k'] == 'Lookup':
+                obs.append(['Lookup', e['op'], e['pat'], bool(e['hit'])])
+            elif e['k'] == 'PubNames':
+                obs.append(['PubNames', e['fn'][0], e['fn'][1], False])
+            elif e['k'] == 'PubCache':
+                obs.append(['PubCache', e['op'], e['pat'], False])
+        n = min(len(obs), len(proto))
+        same = sum(1 for i in range(n) if obs[i] == proto[i])
+        agree += same
+        disagree += max(len(obs), len(proto)) - same
+    ctx.extra['protocol_steps_agreeing_with_model_behaviour'] = agree
+    ctx.extra['protocol_steps_differing_from_model_behaviour'] = disagree
     ctx.extra['replayed_model_behaviours'] = len(behs)
     ctx.extra['outcome_mismatches_with_model'] = mism
     # (2b) thorough: the repository's own test-suite under the recording plugin -- every operator call those tests make is
